@@ -268,7 +268,7 @@ func (h *H) settleInbound() {
 // brokerSend lets the broker publish to the client.
 func (h *H) brokerSend(qos byte, payloadLen int) *refmqtt.OutMsg {
 	c := h.Current()
-	if c == nil || !c.State.Accepted {
+	if c == nil || !c.Accepted() {
 		return nil
 	}
 	h.nTopic++
